@@ -10,6 +10,7 @@ import (
 //verif:unwind 64
 //verif:maxconcretize 16
 //verif:maxdecisions 4000
+//verif:maxpaths quick=20000 thorough=600000
 
 func verifC17Space(c byte) bool {
 	return c == ' ' || c == '\t' || c == '\n' || c == '\v' || c == '\f' || c == '\r'
